@@ -405,4 +405,48 @@ theorem nodup_graft (p : List Text) (new t sub : AttrTree) (h : treeAt t p = som
         simp only [graft, hl, Option.getD_some, AttrTree.nodup_node]
         exact AttrTree.nodupL_upsert k _ kids hn (ih t1 h (AttrTree.nodupL_lookup k t1 kids hn hl))
 
+theorem specSetK_single (v : Node) (kids : Kids) (n : Text) :
+    specSetK v kids [n] = some (Kids.upsert n (denote v) kids) := rfl
+
+theorem specSetK_node (v : Node) (kids sub : Kids) (n : Text) (rest : List Text) (hr : rest ≠ [])
+    (hl : Kids.lookup n kids = some (.node sub)) :
+    specSetK v kids (n :: rest) = (specSetK v sub rest).map fun s => Kids.upsert n (.node s) kids := by
+  cases rest with
+  | nil => exact absurd rfl hr
+  | cons a b => rw [specSetK]; simp only [hl]
+
+theorem specSetK_none (v : Node) (kids : Kids) (n : Text) (rest : List Text) (hr : rest ≠ [])
+    (hl : Kids.lookup n kids = none) :
+    specSetK v kids (n :: rest) = (specSetK v [] rest).map fun s => Kids.upsert n (.node s) kids := by
+  cases rest with
+  | nil => exact absurd rfl hr
+  | cons a b => rw [specSetK]; simp only [hl]
+
+theorem specSetK_leaf (v : Node) (kids : Kids) (n : Text) (rest : List Text) (hr : rest ≠ []) (x : Node)
+    (hl : Kids.lookup n kids = some (.leaf x)) : specSetK v kids (n :: rest) = none := by
+  cases rest with
+  | nil => exact absurd rfl hr
+  | cons a b => rw [specSetK]; simp only [hl]
+
+theorem specRemoveK_single (prune : Bool) (kids : Kids) (n : Text) :
+    specRemoveK prune kids [n] = if (Kids.lookup n kids).isSome then some (Kids.erase n kids) else none := rfl
+
+theorem specRemoveK_node (prune : Bool) (kids sub : Kids) (n : Text) (rest : List Text) (hr : rest ≠ [])
+    (hl : Kids.lookup n kids = some (.node sub)) :
+    specRemoveK prune kids (n :: rest) = (specRemoveK prune sub rest).map fun sub' =>
+      if prune && sub'.isEmpty then Kids.erase n kids else Kids.upsert n (.node sub') kids := by
+  cases rest with
+  | nil => exact absurd rfl hr
+  | cons a b => rw [specRemoveK]; simp only [hl]; cases specRemoveK prune sub (a :: b) <;> rfl
+
+theorem specRemoveK_other (prune : Bool) (kids : Kids) (n : Text) (rest : List Text) (hr : rest ≠ [])
+    (hl : ∀ sub, Kids.lookup n kids ≠ some (.node sub)) : specRemoveK prune kids (n :: rest) = none := by
+  cases rest with
+  | nil => exact absurd rfl hr
+  | cons a b =>
+    rw [specRemoveK]
+    split
+    · rename_i sub h; exact absurd h (hl sub)
+    · rfl
+
 end Nima
